@@ -2,6 +2,7 @@ import OjgVerif.Common.Driver
 import OjgVerif.Sen.Tables
 import OjgVerif.Sen.Writer
 import OjgVerif.Sen.WriterIndent
+import OjgVerif.Sen.Layout
 import OjgVerif.Json.Spec
 /-! Driver ops of the SEN family (C10, C03sen, C06sen, C07sen). -/
 namespace OjgVerif.Sen
@@ -148,6 +149,61 @@ def handleRun (tb fe md opts chunks hx lsk lk : String) : String :=
       renderOut cfg.tokenizer (call T cfg prev (if ns.isEmpty then [bs] else splitChunks bs ns))
   | _, _, _, _, _ => "bad-op"
 
+/-! ### layouts up to the order of members (driver only: the order a writer chose is read off its text, the answer
+is certified by `isLayout` on the reordered tree, which is what `C10_anylayout_partial` needs) -/
+
+/-- the member whose name is written next -/
+def pickMember (o : WOpts) (t : Bytes) : List (Bytes × JV) → List (Bytes × JV) → Option ((Bytes × JV) × List (Bytes × JV))
+  | _, [] => none
+  | seen, (k, v) :: r =>
+    if !omitted o v && (match stripPrefix (senString k o.html) t with | some (58 :: _) => true | _ => false)
+    then some ((k, v), seen.reverse ++ r) else pickMember o t ((k, v) :: seen) r
+
+def reorderElems (rv : JV → Bytes → Option (JV × Bytes)) : List JV → Bytes → List JV → Option (List JV × Bytes)
+  | [], t, acc => match t with | 93 :: r => some (acc.reverse, r) | _ => none
+  | x :: xs, t, acc =>
+    match rv x t with
+    | none => none
+    | some (x', r) => reorderElems rv xs (skipWs r) (x' :: acc)
+
+def reorderMembers (o : WOpts) (rv : JV → Bytes → Option (JV × Bytes)) :
+    Nat → List (Bytes × JV) → Bytes → List (Bytes × JV) → Option (List (Bytes × JV) × Bytes)
+  | 0, _, _, _ => none
+  | n+1, rem, t, acc =>
+    match t with
+    | 125 :: r => some (acc.reverse ++ rem, r)
+    | _ =>
+      match pickMember o t [] rem with
+      | none => none
+      | some ((k, v), rem') =>
+        match stripPrefix (senString k o.html) t with
+        | some (58 :: r2) =>
+          match rv v (skipWs r2) with
+          | some (v', r3) => reorderMembers o rv n rem' (skipWs r3) ((k, v') :: acc)
+          | none => none
+        | _ => none
+
+/-- the tree with the members of every object in the order the text has them -/
+def reorder (o : WOpts) : Nat → JV → Bytes → Option (JV × Bytes)
+  | 0, _, _ => none
+  | n+1, .arr xs, t =>
+    match t with
+    | 91 :: r => (reorderElems (reorder o n) xs (skipWs r) []).map fun p => (.arr p.1, p.2)
+    | _ => none
+  | n+1, .obj kvs, t =>
+    match t with
+    | 123 :: r => (reorderMembers o (reorder o n) (kvs.length + 1) kvs (skipWs r) []).map fun p => (.obj p.1, p.2)
+    | _ => none
+  | _+1, v, t => (layVal o v t).map fun r => (v, r)
+
+/-- rendering that does not depend on the order of members -/
+def canonRender : Nat → JV → String
+  | 0, _ => "?"
+  | n+1, .arr xs => "[" ++ String.intercalate "," (xs.map (canonRender n)) ++ "]"
+  | n+1, .obj kvs =>
+    "{" ++ String.intercalate "," ((kvs.map fun kv => toHexF kv.1 ++ ":" ++ canonRender n kv.2).mergeSort (fun a b => a ≤ b)) ++ "}"
+  | _+1, v => v.render
+
 def handle : List String → String
   | ["run", tb, fe, md, opts, chunks, hx] => handleRun tb fe md opts chunks hx "-" "-"
   -- the same on an instance whose previous call left `lastStrKey` and `lastKey` behind
@@ -182,6 +238,22 @@ def handle : List String → String
       if Json.Spec.pNumber t == some (t, []) && decide (ip.foldl (fun a b => a * 10 + (b.toNat - 48)) 0 < 9223372036854775800)
       then "1" else "0"
     | none => "bad-op"
+  -- `laycheck <opts n e h> <tree> <hex text>`: is the text a white-space layout of the tree (`Sen.isLayout`, the
+  -- hypothesis of `C10_anylayout_partial`)?
+  | ["laycheck", opts, tree, hx] =>
+    match parseTree tree, ofHex hx with
+    | some v, some t =>
+      if opts.toList.any (fun c => c ≠ 'n' && c ≠ 'e' && c ≠ 'h' && c ≠ '-') then "bad-op"
+      else
+        let o : WOpts := { omitNil := opts.contains 'n', omitEmpty := opts.contains 'e', html := opts.contains 'h' }
+        if isLayout o v t then "1"
+        else
+          -- the same members in another order (pretty with Align writes the members in the order of its column table)
+          match reorder o (tree.length + 2) v t with
+          | some (v', []) =>
+            if isLayout o v' t && canonRender (tree.length + 2) v' == canonRender (tree.length + 2) v then "1r" else "0"
+          | _ => "0"
+    | _, _ => "bad-op"
   | ["byteclass"] =>
     -- for every byte: its senMap class and what the parser tables do with it where a string or key
     -- written by AppendSENString can put it (the harness picks class representatives from this)
